@@ -34,6 +34,9 @@ One forward, flow-sensitive pass `Normalizer.block` does, statement by statement
     tuple / list / dict / set of literals) is replaced by the literal; likewise `self.NAME` / `cls.NAME` / `Cls.NAME`
     with exactly one class-level assignment to a literal and no store to it anywhere in the class.
 (h) docstrings, `pass`, annotations without value, logging calls are dropped; annotated assignments become plain ones.
+(e') `{"a": f, "b": g}["a"]` == `f` and `(lo, hi)[1]` == `hi` for literals with side-effect-free elements (a dispatch dict
+    built in the function, after its name was substituted and the loop over its keys unrolled); `lo, hi = (0.0, 1.0)` binds
+    two aliases.
 (j) arithmetic on two numeric literals, `"a" + "b"` and f-strings of string literals are folded; `getattr(o, "n")` == `o.n`;
     `setattr(o, "n", v)` == `o.n = v`.
 (i) `if c: self.f = a else: self.f = b` == `self.f = a if c else b`; `dict(a=x, b=y)` == `{"a": x, "b": y}`; a bare
@@ -644,6 +647,12 @@ class Normalizer:
                             and (trivial(s.value) or self.pure(s.value))):
                         changed = True
                         continue
+                    if (isinstance(s, ast.Assign) and len(s.targets) == 1 and isinstance(s.targets[0], (ast.Tuple, ast.List))
+                            and isinstance(s.value, (ast.Tuple, ast.List)) and len(s.value.elts) == len(s.targets[0].elts)
+                            and all(isinstance(t, ast.Name) and t.id not in loaded and t.id not in self.fn_params
+                                    for t in s.targets[0].elts) and self.pure(s.value)):
+                        changed = True
+                        continue
                     for fld in ("body", "orelse", "finalbody"):
                         if isinstance(getattr(s, fld, None), list) and not isinstance(s, (ast.FunctionDef, ast.ClassDef)):
                             setattr(s, fld, clean(getattr(s, fld)))
@@ -787,6 +796,18 @@ class Normalizer:
                     and not (self._has_container(v) and nm in self.mutated)
                     and not (isinstance(v, ast.List) and not v.elts) and not (isinstance(v, ast.Dict) and not v.keys)):
                 env[nm] = v
+        if (isinstance(st, ast.Assign) and len(st.targets) == 1 and isinstance(st.targets[0], (ast.Tuple, ast.List))
+                and isinstance(st.value, (ast.Tuple, ast.List)) and len(st.targets[0].elts) == len(st.value.elts)
+                and all(isinstance(t, ast.Name) for t in st.targets[0].elts)
+                and not any(isinstance(e, ast.Starred) for e in st.value.elts)):
+            # lo, hi = (0.0, 1.0): each name is an alias of its element when the right-hand side reads none of the names
+            tnames = {t.id for t in st.targets[0].elts}
+            reads = {m.id for m in ast.walk(st.value) if isinstance(m, ast.Name)}
+            if not (tnames & reads) and len(tnames) == len(st.targets[0].elts):
+                for t, v in zip(st.targets[0].elts, st.value.elts):
+                    if (self.store_count.get(t.id) == 1 and t.id not in self.fn_params and self.pure(v)
+                            and not self._has_container(v)):
+                        env[t.id] = v
         return [st]
 
     def _has_container(self, v) -> bool:
@@ -822,6 +843,8 @@ class Normalizer:
         return self.simplify(e)
 
     def simplify(self, e):
+        outer = self
+
         class T(ast.NodeTransformer):
             def visit_Call(self, node):
                 self.generic_visit(node)
@@ -834,6 +857,22 @@ class Normalizer:
                         and isinstance(node.args[1], ast.Constant) and isinstance(node.args[1].value, str)
                         and node.args[1].value.isidentifier()):
                     return ast.Attribute(value=node.args[0], attr=node.args[1].value, ctx=ast.Load())
+                return node
+
+            def visit_Subscript(self, node):
+                self.generic_visit(node)
+                if not isinstance(node.ctx, ast.Load) or not isinstance(node.slice, ast.Constant):
+                    return node
+                k, v = node.slice.value, node.value
+                if (isinstance(v, ast.Dict) and v.keys and all(isinstance(x, ast.Constant) for x in v.keys)
+                        and all(outer.pure(x) for x in v.values)):
+                    # {"a": f, "b": g}["a"] == f   (dispatch dict built in the function)
+                    hits = [val for key, val in zip(v.keys, v.values) if type(key.value) is type(k) and key.value == k]
+                    if len(hits) == 1 and len({(type(x.value), x.value) for x in v.keys}) == len(v.keys):
+                        return hits[0]
+                if (isinstance(v, (ast.Tuple, ast.List)) and type(k) is int and 0 <= k < len(v.elts)
+                        and not any(isinstance(e, ast.Starred) for e in v.elts) and all(outer.pure(e) for e in v.elts)):
+                    return v.elts[k]                                    # (lo, hi)[1] == hi
                 return node
 
             def visit_BinOp(self, node):
